@@ -139,6 +139,10 @@ one_emit(int e, int serial, int mem16, uint16_t seq, uint32_t addr, size_t n, in
     }
     if (e <= E_WR16 && A.p.session.sequence != (uint16_t)(seq + 1))
         vh_fail("sequence", key, "%s: session sequence %u after a request", ctx, A.p.session.sequence);
+    /* responses and meta messages are not requests: the next request of the session carries the next number */
+    if (e > E_WR16 && A.p.session.sequence != seq)
+        vh_fail("sequence", key, "%s: session sequence %u after a response (it was %u before): the next request would skip a number", ctx,
+                A.p.session.sequence, seq);
     /* round trip through the peer's receiver; every third time the peer's line carried noise first that ended in
      * an illegal escape sequence with nothing behind it (the line dropped in the middle of a broken frame) - that
      * receive fails, the emission that follows must be taken as if nothing had happened */
